@@ -211,7 +211,13 @@ func decodeAndCompare(frame []byte, h *ref.MSMHeader, sats []ref.MSMSat, sigs []
 		}
 	}
 	nsig := h.NSig()
+	if len(hd.Cells) != h.NSat() {
+		return fmt.Sprintf("HEADER Cells has %d rows, want %d", len(hd.Cells), h.NSat())
+	}
 	for i := 0; i < h.NSat(); i++ {
+		if len(hd.Cells[i]) != nsig {
+			return fmt.Sprintf("HEADER Cells row %d has %d columns, want %d", i, len(hd.Cells[i]), nsig)
+		}
 		for j := 0; j < nsig; j++ {
 			if hd.Cells[i][j] != h.CellMask[i*nsig+j] {
 				return fmt.Sprintf("HEADER Cells[%d][%d]", i, j)
@@ -431,14 +437,19 @@ func C04(r *ev.Run) {
 						// through the handler for legal timestamps
 						if sc == "zero" && pad <= 1 && val == "counter" {
 							hnd := handler.New(frameStart, slog.LevelInfo)
-							m, _ := hnd.GetMessage(frame)
-							if m == nil || m.MessageType != jb.t {
-								r.Violate(ev.Violation{Fingerprint: "C04 handler-did-not-type-the-frame", What: "handler.GetMessage lost a well-formed MSM", Case: map[string]interface{}{"spec": spec}, ReplayKind: "msm-frame"})
-							} else {
-								handler.Analyse(m)
-								if m.Readable == nil && d == "" {
-									r.Violate(ev.Violation{Fingerprint: "C04 handler-analyse-rejected", What: "Analyse rejected: " + m.ErrorMessage, Case: map[string]interface{}{"spec": spec}, ReplayKind: "msm-frame"})
+							cl, site, pn := guard(func() {
+								m, _ := hnd.GetMessage(frame)
+								if m == nil || m.MessageType != jb.t {
+									r.Violate(ev.Violation{Fingerprint: "C04 handler-did-not-type-the-frame", What: "handler.GetMessage lost a well-formed MSM", Case: map[string]interface{}{"spec": spec}, ReplayKind: "msm-frame"})
+								} else {
+									handler.Analyse(m)
+									if m.Readable == nil && d == "" {
+										r.Violate(ev.Violation{Fingerprint: "C04 handler-analyse-rejected", What: "Analyse rejected: " + m.ErrorMessage, Case: map[string]interface{}{"spec": spec}, ReplayKind: "msm-frame"})
+									}
 								}
+							})
+							if pn {
+								r.Violate(ev.Violation{Fingerprint: "C04 PANIC via handler " + cl + "@" + site, What: "well-formed MSM panics through handler.GetMessage/Analyse", Case: map[string]interface{}{"spec": spec}, ReplayKind: "msm-frame"})
 							}
 							n++
 						}
